@@ -166,12 +166,12 @@ theorem readLoop_frame (b : PBuf) (r : Reader) : ReadFrame b r (b.readLoop r).1 
     exact ReadFrame.of_grown b r b' (growStep b t b' (Nat.min_le_right _ _) (by simpa using hg))
   | case4 b r h t b' hg e hc hr =>
     exact ReadFrame.of_grown b r b' (growStep b t b' (Nat.min_le_right _ _) (by simpa using hg))
-  | case5 b r h t b' hg e hc mx ec rest hr sz n ec' r' b'' hec =>
+  | case5 b r h t b' hg e hc mx ec rest hr sz n r' b'' hec =>
     have hgr := growStep b t b' (Nat.min_le_right _ _) (by simpa using hg)
     have hn : n ≤ r.payload.length ∧ n ≤ sz := by
       simp only [n, min3]; omega
     exact ReadFrame.of_read b r b' n hgr hn.1 (by omega) (by simp only [sz, e] at hn; omega)
-  | case6 b r h t b' hg e hc mx ec rest hr sz n ec' r' b'' hec ih =>
+  | case6 b r h t b' hg e hc mx ec rest hr sz n r' b'' hec ih =>
     have hgr := growStep b t b' (Nat.min_le_right _ _) (by simpa using hg)
     have hn : n ≤ r.payload.length ∧ n ≤ sz := by
       simp only [n, min3]; omega
